@@ -27,6 +27,17 @@ def call(f, *args, **kwargs):
             return self.join(items)
         if f is str and len(args) == 1 and getattr(args[0], "_sx_str", False) is True:
             return args[0]
+        if type(self).__name__ == "Pattern" and type(self).__module__ == "re" and getattr(f, "__name__", "") == "fullmatch" \
+                and len(args) == 1 and getattr(args[0], "_sx_str", False) is True:
+            from . import sstr
+            models._used("re.Pattern.fullmatch on a bounded symbolic string (character classes and quantifiers)")
+            return sstr.regex_fullmatch(self.pattern, self.flags, args[0])
+        if f is set and len(args) == 1 and isinstance(args[0], (list, tuple)) and any(getattr(x, "_sx_str", False) is True for x in args[0]):
+            from . import sstr
+            st = sstr.SymSet([])
+            for x in args[0]:
+                st.add(x)
+            return st
         if self is not None and args and any_sym(args):
             name = getattr(f, "__name__", "")
             if isinstance(self, dict) and name == "get":
